@@ -28,3 +28,15 @@ PROPS["C04"] = {
         ],
     }],
 }
+
+PROPS["C05"] = {
+    "level": "exploration",
+    "assumptions": ["verifkit/wire (hand-written decoder, RFC 1071 checksum) is the trusted reference",
+                    "math/rand is re-seeded per case so that the Ethernet and raw-IP frames of one case are comparable"],
+    "units": [{
+        "pkg": "command",
+        "tests": [T("TestC05Fillers", {"checks": 6000}, {"checks": 25000, "shards": 8}),
+                  T("TestC05Spoofed", {"checks": 12, "shards": 3, "env": {"C05_FILLS": 150000}},
+                    {"checks": 40, "shards": 8, "env": {"C05_FILLS": 400000}})],
+    }],
+}
